@@ -73,7 +73,7 @@ CLAIMED.update({
     'C19': dict(
         cat='model_checking', ref='DESIGN 4/C19',
         text='Bounded model checking (Kani/CBMC) of the real VarName implementation against a specification written in the harness: == is equality ignoring ASCII case, cmp is lexicographic order on the uppercased bytes and consistent with ==, names differing only in letter case hash identically (same write sequence into a recording hasher, across the 16-byte chunk boundary), interned names read back in canonical spelling. Bounded, so labelled model checking, not proof.',
-        note='Bounds: ASCII names of at most 5-6 bytes for ==/cmp and 17-byte names (one full 16-byte hashing chunk plus one byte, one letter with flipped case; hashed bytes == uppercased name + 0xff) for the hash law (quick, 15 s in all); all lengths <= 18 for the hash law and four interned names (thorough, 90-140 s each). The normalising constructors (From<String>, From<Box<str>>, From<Cow::Owned>, from_mut_str, all through from_compact) are covered for 2- and 3-byte ASCII names (quick, 16 s + 34 s): the result reads back as the upper-cased input; CompactString's inline-asm barrier ensure_read (a no-op returning its argument, unsupported by Kani) is stubbed by the identity - an assumption listed in the evidence. Not covered: non-ASCII names, the phf lookup behind FromStr / from_compact / From<&HeaderName>, arbitrary Hashers beyond "same write sequence". Strings are built with from_utf8_unchecked over ASCII-constrained bytes in the harness (validity by construction).',
+        note='Bounds: ASCII names of at most 5-6 bytes for ==/cmp and 17-byte names (one full 16-byte hashing chunk plus one byte, one letter with flipped case; hashed bytes == uppercased name + 0xff) for the hash law (quick, 15 s in all); all lengths <= 18 for the hash law and four interned names (thorough, 90-140 s each). The normalising constructors (From<String>, From<Box<str>>, From<Cow::Owned>, from_mut_str, all through from_compact) are covered for 2- and 3-byte ASCII names (quick, 16 s + 34 s): the result reads back as the upper-cased input; the inline-asm barrier ensure_read of CompactString (a no-op returning its argument, unsupported by Kani) is stubbed by the identity - an assumption listed in the evidence. Not covered: non-ASCII names, the phf lookup behind FromStr / from_compact / From<&HeaderName>, arbitrary Hashers beyond "same write sequence". Strings are built with from_utf8_unchecked over ASCII-constrained bytes in the harness (validity by construction).',
         tech='bounded model checking of the real code (Kani/CBMC), stand-in: no contract within reach of Verus (str) or of a complete Kani harness'),
 })
 
